@@ -65,7 +65,8 @@ CLAUSES = {
 
 
 def proof_files(tier):
-    return ["C03_defs.v", "C03_reduce.v", "C03_construct.v", "C03_dms.v", "C03_ops.v", "C03_grid.v", "C03.v"]
+    return ["C03_defs.v", "C03_tac.v", "C03_reduce.v", "C03_construct.v", "C03_forms.v", "C03_dms.v", "C03_ops.v",
+            "C03_grid.v", "C03.v"]
 
 
 # ----------------------------------------------------------------------------------------------
